@@ -205,7 +205,7 @@ fn main() {
             let mut r = Report::default();
             let seed: u64 = m.get("seed").and_then(|s| s.parse().ok()).unwrap_or(1);
             let n: usize = m.get("n").and_then(|s| s.parse().ok()).unwrap_or(500);
-            record::record_minmax(&m["trace"], seed, n, &mut r);
+            record::record_minmax(&m["trace"], seed, n, true, &mut r);
             r
         }
         ("record", Some("rayon")) => {
